@@ -89,7 +89,8 @@ def _norm(s):
     return ' '.join(s.split())
 
 
-def assemble(template_path, unit, default_props):
+def assemble(template_path, unit, default_props, skip_fns=None):
+    skip_fns = skip_fns or {}
     tpl = open(template_path).read().split('\n')
     for l in tpl:
         if l.strip().startswith('//@property '):
@@ -118,7 +119,20 @@ def assemble(template_path, unit, default_props):
                 block.append(t)
                 i += 1
             i += 1  # skip //@end
-            _emit_fn(asm, out, unit, _parse_kv(s[6:]), block, default_props)
+            kvf = _parse_kv(s[6:])
+            key = kvf.get('obname', kvf['path'])
+            if key in skip_fns:
+                _emit_fn_stub(asm, out, unit, kvf, block, default_props, skip_fns[key])
+            else:
+                mark = len(out)
+                nob = len(asm.obligations)
+                try:
+                    _emit_fn(asm, out, unit, kvf, block, default_props)
+                except ExtractError as e:
+                    del out[mark:]
+                    del asm.obligations[nob:]
+                    asm.fn_ranges = [r for r in asm.fn_ranges if r[0] <= mark]
+                    _emit_fn_stub(asm, out, unit, kvf, block, default_props, 'extraction: %s' % e)
             continue
         if s.startswith('//@struct ') or s.startswith('//@enum '):
             kind = 'struct' if s.startswith('//@struct ') else 'enum'
@@ -136,7 +150,7 @@ def assemble(template_path, unit, default_props):
                 block.append(tpl[i].strip()[3:].strip())
                 i += 1
             i += 1
-            _emit_trace(asm, out, unit, s, block, default_props)
+            _emit_trace(asm, out, unit, s, block, default_props, skip_fns)
             continue
         if s.startswith('//@const '):
             kv = _parse_kv(s[9:])
@@ -325,7 +339,8 @@ def _member_req(name, ty, specs, mode):
     return 'self.%s.%s()' % (name, mode)
 
 
-def _emit_trace(asm, out, unit, header, block, default_props):
+def _emit_trace(asm, out, unit, header, block, default_props, skip_fns=None):
+    skip_fns = skip_fns or {}
     """//@trace file=… type=T kind=struct|enum [impl="GcManaged for T"] [noemit=1]
          exempt <field> <reason…>          (an explicit, reviewed exemption: listed as an assumption)
          spec <field> <expr with {m}>      (override of the generated per-field requirement)
@@ -421,8 +436,20 @@ def _emit_trace(asm, out, unit, header, block, default_props):
             if m_.group(1) in (meth, 'both'):
                 blk.append(m_.group(2).replace('{m}', mode))
         n_before = len(asm.obligations)
-        _emit_fn(asm, out, unit, {'file': kv['file'], 'path': '<%s>::%s' % (implname, meth), 'props': ','.join(props),
-                                  'obname': '%s::%s' % (tname, meth), 'optional_rewrites': '1'}, blk, default_props)
+        kvt = {'file': kv['file'], 'path': '<%s>::%s' % (implname, meth), 'props': ','.join(props),
+               'obname': '%s::%s' % (tname, meth), 'optional_rewrites': '1'}
+        if kvt['obname'] in skip_fns:
+            _emit_fn_stub(asm, out, unit, kvt, blk, default_props, skip_fns[kvt['obname']])
+        else:
+            mark = len(out)
+            nob = len(asm.obligations)
+            try:
+                _emit_fn(asm, out, unit, kvt, blk, default_props)
+            except ExtractError as e:
+                del out[mark:]
+                del asm.obligations[nob:]
+                asm.fn_ranges = [r for r in asm.fn_ranges if r[0] <= mark]
+                _emit_fn_stub(asm, out, unit, kvt, blk, default_props, 'extraction: %s' % e)
         for o in asm.obligations[n_before:]:
             mm = re.search(r'/@([\w.]+)$', o.name)
             if mm:
@@ -432,6 +459,74 @@ def _emit_trace(asm, out, unit, header, block, default_props):
     out.append('}')
     asm.trace_types = getattr(asm, 'trace_types', {})
     asm.trace_types[tname] = {'members': members, 'managed': managed}
+
+
+def _emit_fn_stub(asm, out, unit, kv, block, default_props, reason):
+    """The function could not be brought into the verifier (lost anchor / unsupported construct). Emit its CONTRACT as an
+    assumed external_body stub so that callers and the other functions are still checked; every obligation of this
+    function is reported as undecided (never discharged, never refuted)."""
+    fname = kv.get('obname', kv['path'])
+    props = kv.get('props', ','.join(default_props)).split(',')
+    requires, ensures = [], []
+    sigsubs = []
+    for t in block:
+        if t.startswith('requires '):
+            requires.append(t[9:].strip())
+        elif t.startswith('ensures '):
+            e_ = t[8:].strip()
+            m_ = re.match(r'@([\w.]+)\s+(.*)', e_)
+            ensures.append((m_.group(1), m_.group(2)) if m_ else e_)
+        elif t.startswith('sig '):
+            m = re.match(r'sig\s+"((?:[^"\\]|\\.)*)"\s*=>\s*"((?:[^"\\]|\\.)*)"', t)
+            sigsubs.append((m.group(1), m.group(2)))
+    sig = None
+    try:
+        src = get_source(kv['file'])
+        it = src.find(kv['path'], kind='fn')
+        ft = rsx.FnText(src, it)
+        sig = ft.sig
+        body0 = ft.body
+        for t in block:
+            if t.startswith('rewrite '):
+                for rule in t.split()[1:]:
+                    if rule == 'R10':
+                        sig, _b, _n = rw.apply(rule, sig, body0)
+        for a, b in sigsubs:
+            sig = sig.replace(a, b)
+        ret = kv.get('ret')
+        if ret:
+            m = re.search(r'\)\s*->\s*(.+)$', sig, re.S)
+            if m:
+                sig = sig[:m.start()] + ') -> (%s: %s)' % (ret, m.group(1).strip())
+        asm.functions.append({'name': fname + ' (NOT verified: ' + reason[:120] + ')', 'file': kv['file'], 'line': ft.line, 'sha256': ft.sha, 'props': props})
+    except ExtractError:
+        sig = None
+    k = 0
+    for e in ensures:
+        k += 1
+        name = '%s/%s/@%s' % (unit, fname, e[0]) if isinstance(e, tuple) else '%s/%s/post#%d' % (unit, fname, k)
+        o = Obligation(name, 'post', props, fname, e[1] if isinstance(e, tuple) else e)
+        o.forced = ('undecided', reason)
+        o.fnkey = fname
+        asm.obligations.append(o)
+    ob = Obligation('%s/%s/body' % (unit, fname), 'body', props, fname, 'body not verified')
+    ob.forced = ('undecided', reason)
+    asm.obligations.append(ob)
+    if sig is None:
+        asm.hard_missing = getattr(asm, 'hard_missing', []) + ['%s: %s' % (fname, reason)]
+        return
+    out.append('    // ---- NOT VERIFIED (%s): contract assumed so that the rest of the unit is still checked' % reason.replace('\n', ' ')[:200])
+    out.append('    #[verifier::external_body]')
+    out.append('    ' + sig)
+    if requires:
+        out.append('        requires')
+        for r in requires:
+            out.append('            %s,' % r.rstrip(','))
+    if ensures:
+        out.append('        ensures')
+        for e in ensures:
+            out.append('            %s,' % (e[1] if isinstance(e, tuple) else e).rstrip(','))
+    out.append('    { unimplemented!() }')
 
 
 def _emit_fn(asm, out, unit, kv, block, default_props):
@@ -760,6 +855,7 @@ def classify(asm, res, canary_name):
     for o in asm.obligations:
         o.status = 'discharged'
     canary_failed = False
+    res['hard_fns'] = {}
     for d in errors:
         msg = d.get('message', '')
         spans = d.get('spans', [])
@@ -780,7 +876,12 @@ def classify(asm, res, canary_name):
         is_ver = bool(REFUTE_PAT.search(msg))
         is_rl = bool(RLIMIT_PAT.search(msg))
         if not is_ver and not is_rl:
-            # compile / mode / unsupported-construct error: whole unit undecided
+            # compile / mode / unsupported-construct error: if it lies inside an extracted function, that function can
+            # be retried as an assumed stub (hard_fns); otherwise the whole unit is undecided
+            for (a_, b_, fname_, body_ob_) in asm.fn_ranges:
+                if any(a_ <= l <= b_ for l in (plines or lines)):
+                    res['hard_fns'][fname_] = msg[:200]
+                    break
             hard = (hard or '') + rendered[:1200] + '\n'
             continue
         hit = [o for o in asm.obligations if o.lines and (set(o.lines) & plines)]
@@ -811,6 +912,10 @@ def classify(asm, res, canary_name):
             else:
                 o.status = 'refuted'
             o.detail += rendered[:3000] + '\n'
+    for o in asm.obligations:
+        if getattr(o, 'forced', None):
+            o.status = o.forced[0]
+            o.detail = 'not verified: ' + o.forced[1]
     res['canary_failed'] = canary_failed
     res['verified'] = vr.get('verified')
     res['errors'] = vr.get('errors')
